@@ -41,7 +41,7 @@ def theorem_at(lines, lineno):
 
 
 PROOF_FILES = ["TranslatedEq", "TranslatedUnits", "TranslatedUnitsTs", "TranslatedUnitsIso", "TranslatedSafe", "TranslatedUnitsSafe",
-               "TranslatedUnitsTsSafe", "TranslatedUnitsIsoSafe"]   # in import order
+               "TranslatedUnitsTsSafe", "TranslatedUnitsIsoSafe", "TranslatedCmp"]   # in import order
 
 
 def build():
